@@ -439,7 +439,7 @@ example : textClean "a\"b'c\td\ne f".toList = true ∧ attrClean "a>b'c d".toLis
 
 /-- the hand-modelled signing glue is the source of today; the third-party signer and verifier are the pinned versions -/
 theorem C04_source_current :
-    FactsUtil.sameHashes ["provider.createPostSignature", "signature.Create", "signature.GetSigner", "xml.Marshal"] = true ∧
+    FactsUtil.sameHashes ["signature.Create", "signature.GetSigner", "xml.Marshal"] = true ∧
     FactsUtil.lookup Gen.Facts.deps "github.com/amdonov/xmlsig" = "v0.1.0" ∧
     FactsUtil.lookup Gen.Facts.deps "github.com/russellhaering/goxmldsig" = "v1.4.0" :=
   ⟨by decide, by decide, by decide⟩
